@@ -382,6 +382,33 @@ class ProjectRegistriesAndRunNames(Contract):
                             bad2 = bad2 or {"listing": listing, "call": f"Project.{fname}({name!r})", "resolved": str(got), "expected": str(want)}
         out.append({"name": "bounded_project_latest_result_lookups_resolve_to_the_most_recent_run_of_that_result", "ok": bad2 is None and n2 > 0, "case": f"{n2} lookups with and without run suffix", "function": "glotaran.project.project:Project.get_latest_result_path", "witness": bad2, "detail": "decision table on a real project folder (bounded stand-in)"})
 
+        # ---- item names with dots: `scan.v4` is its own item, not `scan` (the file of another item is never the target)
+        bad3, n3 = None, 0
+        ds0 = xr.Dataset({"data": (("time", "spectral"), np.ones((2, 2)))}, coords={"time": [0.0, 1.0], "spectral": [0.0, 1.0]})
+        with tempfile.TemporaryDirectory() as d:
+            for kind in ("data", "model"):
+                for allow in (False, True):
+                    n3 += 1
+                    root = Path(d) / f"dn_{kind}_{allow}"
+                    root.mkdir()
+                    if kind == "data":
+                        reg = ProjectDataRegistry(root)
+                        other, mine = reg.directory / "scan.nc", reg.directory / "scan.v4.nc"
+                        act = lambda: reg.import_data(ds0, dataset_name="scan.v4", allow_overwrite=allow, ignore_existing=False)  # noqa: E731
+                    else:
+                        reg = ProjectModelRegistry(root)
+                        other, mine = reg.directory / "model.yml", reg.directory / "model.v3.yml"
+                        act = lambda: reg.generate_model("model.v3", "decay_parallel", {"nr_compartments": 1, "irf": False}, allow_overwrite=allow, ignore_existing=False)  # noqa: E731
+                    other.write_bytes(b"PRECIOUS")
+                    try:
+                        act()
+                        exc = None
+                    except Exception as e:
+                        exc = e
+                    if other.read_bytes() != b"PRECIOUS" or exc is not None or not mine.exists():
+                        bad3 = bad3 or {"kind": kind, "allow_overwrite": allow, "other_item_kept": other.read_bytes() == b"PRECIOUS", "own_file_written": mine.exists(), "exception": repr(exc)}
+        out.append({"name": "bounded_dotted_item_names_are_their_own_items", "ok": bad3 is None and n3 > 0, "case": f"{n3} imports / generations of `name.vN` next to an existing `name`", "function": "project registries", "witness": bad3, "detail": "decision table on real directories (bounded stand-in)"})
+
         # ---- generated / imported files: written only if absent or allow_overwrite; ignore_existing short-circuits
         bad = None
         n = 0
